@@ -264,9 +264,75 @@ def filter_job(j):
     return out
 
 
+def restore(a, storage):
+    """float64 array `a` (any shape) in another storage type"""
+    a = np.asarray(a, dtype='d')
+    if storage == 'noncontig':
+        big = np.zeros(a.shape[:-1] + (2 * a.shape[-1] + 1,), dtype='d')
+        big[..., 1::2] = a
+        return big[..., 1::2]
+    if storage == 'fortran':
+        return np.asfortranarray(a)
+    return a.astype(storage)
+
+
+def same(a, b):
+    return bool(np.array_equal(np.asarray(a), np.asarray(b)) and getattr(a, 'dtype', None) == getattr(b, 'dtype', None))
+
+
+def storage_job(j):
+    """one call with the data in another storage type, and the same call on float64 copies of the same numbers"""
+    fn, st = j['fn'], j['storage']
+    if fn in ('airtovac', 'vactoair'):
+        f = airtovac if fn == 'airtovac' else vactoair
+        a = restore(j['values'], st)
+        unit = j.get('unit')
+        x = a * UNITS[unit] if unit else a
+        keep = a.copy()
+        r = f(x)
+        ref = f(a.astype('d') * UNITS[unit] if unit else a.astype('d'))
+        rv, refv = getattr(r, 'value', r), getattr(ref, 'value', ref)
+        allbelow = bool((a.astype('d') * {None: 1, 'AA': 1, 'nm': 10, 'um': 10000}[unit] < 2000).all())
+        return {'out': fls(rv), 'ref': fls(refv), 'input_unchanged': same(a, keep), 'dtype': str(np.asarray(rv).dtype),
+                'aliases_input': bool(np.shares_memory(np.asarray(rv), a)), 'all_below': allbelow,
+                'unit': str(getattr(r, 'unit', None)), 'numbers': fls(a)}
+    if fn == 'sdssflux2ab':
+        a = restore(np.array(j['values'], dtype='d').reshape(-1, 5), st)
+        keep = a.copy()
+        kw = {'flux': {}, 'mag': {'magnitude': True}, 'ivar': {'ivar': True}}[j['mode']]
+        r = sdssflux2ab(a, **kw)
+        ref = sdssflux2ab(a.astype('d'), **kw)
+        return {'out': fls(r), 'ref': fls(ref), 'input_unchanged': same(a, keep), 'dtype': str(r.dtype),
+                'aliases_input': bool(np.shares_memory(r, a)), 'numbers': fls(a)}
+    if fn == 'filter_thru':
+        nT, nx = j['nT'], j['nx']
+        flux64 = np.array(j['values'], dtype='d').reshape(nT, nx)
+        loglam = np.array([[l0 + dl * k for k in range(nx)] for l0, dl in zip(j['loglam0'], j['dloglam'])], dtype='d')
+        wave64 = 10.0 ** loglam
+        flux = restore(flux64, st)
+        wave = restore(wave64, j.get('wave_storage', 'd')) if j.get('wave_storage') else wave64
+        kw, kw64 = {}, {}
+        if j.get('mask') is not None:
+            m = np.array(j['mask'], dtype='i4').reshape(nT, nx)
+            kw['mask'] = (m != 0) if j.get('mask_storage') == 'bool' else m.astype(j.get('mask_storage', 'i4'))
+            kw64['mask'] = m
+        fkeep, wkeep = flux.copy(), wave.copy()
+        mkeep = kw['mask'].copy() if 'mask' in kw else None
+        r = spec2d.filter_thru(flux, waveimg=wave, **kw)
+        ref = spec2d.filter_thru(flux.astype('d'), waveimg=wave.astype('d'), **kw64)
+        unchanged = same(flux, fkeep) and same(wave, wkeep) and (mkeep is None or same(kw['mask'], mkeep))
+        return {'out': fls(r), 'ref': fls(ref), 'input_unchanged': bool(unchanged), 'dtype': str(r.dtype),
+                'aliases_input': bool(np.shares_memory(r, flux)), 'shape': list(r.shape)}
+    return {'err': 'BadStorageJob'}
+
+
 def job(j):
     try:
         k = j['op']
+        if k == 'history':
+            return {'results': [job(c) for c in j['calls']]}
+        if k == 'storage':
+            return storage_job(j)
         if k == 'wave':
             return wave_job(j)
         if k == 'roundtrip':
